@@ -121,7 +121,8 @@ class PolarsContainerValidate(Contract):
 
         def subsample(I, self_obj, check_obj, head=None, tail=None, sample=None, random_state=None):
             p = cur()
-            r = Lf("subsample", check_obj)
+            # (C20 PolarsSubsample/post.no_option_returns_the_object_itself)
+            r = check_obj if (head is None and tail is None and sample is None) else Lf("subsample", check_obj)
             p.ghost["subsampled"] = (check_obj, (head, tail, sample, random_state), r)
             return r
 
@@ -164,6 +165,12 @@ class PolarsContainerValidate(Contract):
             p.check(not p.ghost.get("parser_errors") and not p.ghost.get("failing"),
                     f"{DFP}.validate/pre@drop_invalid_rows.every_collected_error_is_row_attributable",
                     note="errors collected from core checks / parsers are not known to carry a row-aligned check_output")
+            # ... and the masks were computed by checks that ran on the SUB-SAMPLE: they are row-aligned with the frame that is
+            # filtered only if that is the very frame the checks saw (no head / tail / sample requested)
+            sub = p.ghost.get("subsampled")
+            p.check(sub is not None and sub[2] is check_obj,
+                    f"{DFP}.validate/pre@drop_invalid_rows.row_masks_are_over_the_frame_that_is_filtered",
+                    note="the checks ran on a head / tail / sample sub-frame, drop_invalid_rows filters the whole parsed frame with their masks")
             r = Lf("drop_invalid_rows", check_obj)
             p.ghost["dropped"] = r
             return r
@@ -207,10 +214,14 @@ class PolarsContainerValidate(Contract):
     def make_args(self):
         from pandera.backends.polars.container import DataFrameSchemaBackend as B
 
+        # sub-sampling: requested (arbitrary head / tail / sample values) or not requested at all (all None) - the two cases differ only
+        # in what drop_invalid_rows may assume about the row masks, so the case split is made where rows can be dropped
+        none = self.fixed.get("drop", False) and self.fixed.get("lazy", True) and cur().choose([("subsample_requested", None), ("whole_frame", None)], "head/tail/sample") == 1
+        opt = (lambda n: None) if none else (lambda n: T.fresh_value(T.Any, n))
         return {"self": T.Ref(B).fresh("self"), "check_obj": Lf("argument"),
                 "schema": T.Ref(None, drop_invalid_rows=T.Const(self.fixed.get("drop", False)), name=T.Any).fresh("schema"),
                 "lazy": self.arg("lazy", T.Bool), "inplace": T.fresh_value(T.Bool, "inplace"),
-                "head": T.fresh_value(T.Any, "head"), "tail": T.fresh_value(T.Any, "tail"), "sample": T.fresh_value(T.Any, "sample"),
+                "head": opt("head"), "tail": opt("tail"), "sample": opt("sample"),
                 "random_state": T.fresh_value(T.Any, "random_state")}
 
     def call_target(self, I, fn, a):
